@@ -3615,10 +3615,16 @@ impl<'a> Parser<'a> {
                     // Rest parameter
                     let rest_start = self.current.span;
                     let arg = self.parse_binding_pattern()?;
+                    // `...args: T[]`: the annotation is static
+                    let rest_type = if self.match_token(&TokenKind::Colon) {
+                        Some(Box::new(self.parse_type_annotation()?))
+                    } else {
+                        None
+                    };
                     let rest_span = self.span_from(rest_start);
                     let rest_elem = RestElement {
                         argument: Box::new(arg),
-                        type_annotation: None,
+                        type_annotation: rest_type,
                         span: rest_span,
                     };
                     params.push(FunctionParam {
